@@ -528,7 +528,7 @@ func t1closureCase(o *suiteOut, line string) {
 	var x []byte
 	var err error
 	var pan string
-	if f[2] == "model" || f[2] == "bigmodel" || f[2] == "stdput" {
+	if f[2] == "model" || f[2] == "bigmodel" || f[2] == "stdput" || strings.HasPrefix(f[2], "matrix") {
 		// a font only a foreign writer produces: rendered by the harness's independent writer
 		rr := newRng(seed)
 		mf := randModelFont(rr)
@@ -537,6 +537,12 @@ func t1closureCase(o *suiteOut, line string) {
 			for i := 0; i < 1700; i++ {
 				mf.glyphs[fmt.Sprintf("g%04d", i)] = randModelGlyph(rr)
 			}
+		}
+		if strings.HasPrefix(f[2], "matrix") {
+			// font matrices a reader accepts but no ordinary font has: all zeros, the identity, unequal, mirrored and tiny scales
+			k, _ := strconv.Atoi(strings.TrimPrefix(f[2], "matrix"))
+			sc := [][2]float64{{0, 0}, {1, 1}, {0.0005, 0.002}, {-0.001, 0.001}, {1e-300, 1e-300}, {0, 0.001}}[k%6]
+			mf.matrix = [6]float64{sc[0], 0, 0, sc[1], 0, 0}
 		}
 		if f[2] == "stdput" {
 			// the font has its own encoding array, which happens to say what the standard encoding says; glyphs A and B exist
@@ -618,6 +624,12 @@ func suiteT1closure(o *suiteOut, r *rng, tier string, n int) {
 	for i, ff := range allFormats {
 		t1closureCase(o, fmt.Sprintf("t1closure %d bigmodel %s", 9100+i, formatName(ff)))
 		o.count("fonts with more than 64 kB of charstrings")
+	}
+	for k := 0; k < 6; k++ {
+		for i, ff := range allFormats {
+			t1closureCase(o, fmt.Sprintf("t1closure %d matrix%d %s", 9300+4*k+i, k, formatName(ff)))
+			o.count("fonts with an unusual font matrix (zero, identity, unequal, mirrored, tiny)")
+		}
 	}
 	for i := 0; i < 12; i++ {
 		t1closureCase(o, fmt.Sprintf("t1closure %d stdput %s", 9200+i, formatName(allFormats[i%len(allFormats)])))
